@@ -78,7 +78,7 @@ def fireOf {α} (st : State α) (op : Op α) : Bool :=
 def nextState {α} (B : Nat) (hist : List (Op α)) (st : State α) (op : Op α) : State α :=
   { st with tlb := st.tlb + op.chunk.length, pending := pendingOf st op,
             prior := prune B (total (hist ++ [op])) (withStarts 0 (hist ++ [op])),
-            doneFired := st.doneFired || fireOf st op }
+            queue := [], doneFired := st.doneFired || fireOf st op }
 
 /-- every delivered epoch is the exact epoch of its own request -/
 def EpochOK {α} (S : List α) (L : Nat) (rs : List Request) (e : Epoch α) : Prop :=
@@ -179,8 +179,9 @@ theorem step_spec {α} (S : List α) (B L : Nat) (hist : List (Op α)) (st : Sta
     mergeOk_uniform L _ (fun e he => ⟨by rw [(hbatch e he).1]; rfl, (hbatch e he).2.2⟩)
   -- the computation itself
   have hstep : step st op = (nextState B hist st op, .ok (batchOf st op) (fireOf st op)) := by
-    unfold step
-    simp only [hinv.alive, Bool.false_eq_true, if_false]
+    unfold step call
+    simp only [hinv.alive, hinv.queue, List.nil_append, List.isEmpty_nil, Bool.and_true,
+      Bool.false_eq_true, if_false]
     rw [feedAll_eq, removeAll_pending]
     have hi := intakeAll_eq (prior1Of st op) ((keptOf st op).filterMap (feedMore st.tlb op.chunk))
       (skipOf st op) op.reqs hv.nodup hfreshFed
@@ -200,7 +201,7 @@ theorem step_spec {α} (S : List α) (B L : Nat) (hist : List (Op α)) (st : Sta
     simp only [nextState, pendingOf, batchOf, fireOf, keptOf, takenOf, skipOf, prior1Of, hinv.alive]
   refine ⟨hstep, ?_, hbatch⟩
   rw [hstep]
-  refine ⟨hinv.alive, ?_, hinv.buf, rfl, ?_, ?_, ?_, ?_⟩
+  refine ⟨hinv.alive, ?_, hinv.buf, rfl, ?_, ?_, ?_, ?_, rfl⟩
   · simp [nextState, hT, total_append, total_single]
   · intro c' hc'
     simp only [total_append, total_single, allReqs_append]
